@@ -241,7 +241,12 @@ def gen_cases(tier, seed):
         onecpu = deny is None and r.random() < 0.08
         if onecpu:
             args[args.index("-w") + 1] = "0"
-        yield {"onecpu": onecpu, "deny": deny, "fs": "ext4", "spec": spec, "pre": pre, "args": args, "sources": sources, "shapes": shapes, "dstate": dstate,
+        # source and destination on two freshly made filesystems of the same kind: their inode numbers are handed out in the same
+        # sequence, so entries of the two trees share numbers (an identity is a device *and* a number); the run is arranged so that
+        # a source sub-directory has the number of the first entry of the destination
+        rt = random.Random(seed * 31 + i)
+        twin = any(e["p"] == "dst" and e["k"] == "d" for e in pre) and not any(e["k"] == "hard" for e in pre) and rt.random() < 0.12
+        yield {"twin": twin, "onecpu": onecpu, "deny": deny, "fs": "ext4", "spec": spec, "pre": pre, "args": args, "sources": sources, "shapes": shapes, "dstate": dstate,
                "flag": flag, "spell": spell, "driver": driver, "T": flag == "-T",
                "sched": r.choice(["os", "os", "os", "pct"]), "sseed": r.randrange(1 << 30)}
 
@@ -254,9 +259,52 @@ def fix_rel_links(spec):
 def run_case(case):
     res = {"evals": [], "viol": [], "inconc": [], "counters": {}}
     with core.Sandbox(case["fs"], "c02") as sb:
+        mounted = []
+        try:
+            return _run_case(case, sb, res, mounted)
+        finally:
+            for m in reversed(mounted):
+                core.umount(m)
+
+
+def _twin_mounts(case, root, res, mounted):
+    """Sources on one fresh tmpfs, the destination directory on another; the destination's inode counter is advanced so that its
+    next entry gets the number of a sub-directory of a source (of any source entry when there is no such directory)."""
+    if not core.mount_tmpfs(root, "size=64m"):
+        return False
+    mounted.append(root)
+    dst = os.path.join(root, "dst")
+    os.mkdir(dst)
+    if not core.mount_tmpfs(dst, "size=64m"):
+        return False
+    mounted.append(dst)
+    tree.materialize(root, subst(case["spec"], root))
+    below = [e["p"] for e in case["spec"] if any(e["p"].startswith(s_ + "/") for s_ in case["sources"])]
+    cands = [p_ for p_ in below if any(e["p"] == p_ and e["k"] == "d" for e in case["spec"])] or below or list(case["sources"])
+    want = os.lstat(os.path.join(b(root), b(random.Random(len(below)).choice(cands)))).st_ino
+    probe = os.path.join(b(dst), b".probe")
+    for _ in range(20000):
+        os.close(os.open(probe, os.O_CREAT | os.O_WRONLY))
+        ino = os.lstat(probe).st_ino
+        os.unlink(probe)
+        if ino + 1 >= want:
+            break
+    res["counters"]["twin-filesystem-runs"] = 1
+    res["counters"]["twin-runs-with-the-numbers-lined-up"] = int(ino + 1 == want)
+    tree.materialize(root, subst(case["pre"], root))
+    return True
+
+
+def _run_case(case, sb, res, mounted):
+    if True:
         root = sb.root
-        tree.materialize(root, subst(case["spec"], root))
-        tree.materialize(root, subst(case["pre"], root))
+        if case.get("twin"):
+            if not _twin_mounts(case, root, res, mounted):
+                res["inconc"].append("mount-unavailable")
+                return res
+        else:
+            tree.materialize(root, subst(case["spec"], root))
+            tree.materialize(root, subst(case["pre"], root))
         pre = tree.snapshot(root)
         args = [a.replace("@ROOT@", root) for a in case["args"]]
         if case.get("deny"):
@@ -302,7 +350,7 @@ def run_case(case):
         for frag, msg in model.check_untouched(pre, post, mapped, exempt=src_paths):
             where = "inside-dest" if msg.split("'")[1].startswith("dst") or msg.split('"')[0].startswith("dst") else "outside-dest"
             res["viol"].append({"sig": "%s:untouched:%s" % (case["driver"], frag), "what": "exit 0 but %s [%s] args=%s" % (msg, tag, " ".join(case["args"]))})
-        res["evals"].append({"key": [case["driver"], case["dstate"], tuple(sorted(set(case["shapes"]))), case["flag"], case["spell"], kinds] + (["unlistable-dir"] if case.get("deny") else []) + (["one-cpu"] if case.get("onecpu") else []),
+        res["evals"].append({"key": [case["driver"], case["dstate"], tuple(sorted(set(case["shapes"]))), case["flag"], case["spell"], kinds] + (["twin-filesystems"] if case.get("twin") else []) + (["unlistable-dir"] if case.get("deny") else []) + (["one-cpu"] if case.get("onecpu") else []),
                              "sample": {"args": case["args"], "dest_state": case["dstate"], "mapped_entries": len(mapping),
                                         "kinds": kinds, "some_mapped": [[m["src"], m["dst"]] for m in mapping[:5]]}})
         res["counters"]["exit0"] = 1
